@@ -746,8 +746,20 @@ struct Exec {
             if (!hs || want != hs)
                 bad("bestpath_words", "hyp_string", std::string("lattice_hyp of the best path is '") + (hs ? hs : "(null)") + "', its links spell '" + want + "'");
         }
+        // asked once, or (every other request) twice in a row with nothing in between: the second answer and the link
+        // posteriors after it must be those of the first (the backward pass starts from scratch each time)
+        const int passes = 1 + (opi & 1);
+        int32 first_post = 0;
+        for (int pass = 0; pass < passes; ++pass) {
         int32 post = lattice_posterior(dag, ascale);
         out.events.i64(post);
+        if (pass == 0)
+            first_post = post;
+        else {
+            out.probes["lat.posterior_asked_twice"]++;
+            if (post != first_post)
+                bad("posterior_repeatable", "second_request", "lattice_posterior returned " + std::to_string(first_post) + ", then " + std::to_string(post) + " with nothing in between");
+        }
         const int64_t eps = std::max<int64_t>(64, 4 * (int64_t)L.links.size());
         if (post > eps)
             bad("posterior_range", "best_path", "posterior of the best path " + std::to_string(post) + " (log) exceeds one");
@@ -765,6 +777,7 @@ struct Exec {
         }
         if (std::llabs((int64_t)back - (int64_t)dag->norm) > eps)
             bad("forward_backward_agree", "totals", "forward total " + std::to_string(dag->norm) + " and backward total " + std::to_string(back) + " differ by more than " + std::to_string(eps));
+        }
         out.probes["lat.posteriors_checked"]++;
     }
 
